@@ -436,6 +436,80 @@ func findNilableFields(p *core.Prog, pkgs ...string) []nilableField {
 							}
 						})
 					}
+					// … unless every caller of this register-and-return helper completes the object before it can
+					// return: from the call, every path to a return passes a non-nil store of the field or a call of a
+					// package helper that ensures it (all of its normal returns are behind a non-nil store of the field
+					// or the non-nil edge of a nil test of it: `if sp.w != nil { return }; sp.w = New…`)
+					if elsewhere != nil {
+						ensures := func(e *ssa.Function) bool {
+							if e == nil || len(e.Blocks) == 0 || core.FnPkgPath(e) != core.FnPkgPath(fn) {
+								return false
+							}
+							isSt := func(x ssa.Instruction) bool {
+								st, ok := x.(*ssa.Store)
+								if !ok || core.IsNilConst(st.Val) {
+									return false
+								}
+								fa, ok := st.Addr.(*ssa.FieldAddr)
+								return ok && core.FieldVar(fa) == fv
+							}
+							has := false
+							cutE := map[core.Edge]bool{}
+							for _, b := range e.Blocks {
+								for _, x := range b.Instrs {
+									if isSt(x) {
+										has = true
+									}
+								}
+								iff := core.IfOf(b)
+								if iff == nil {
+									continue
+								}
+								if cmp, ok := iff.Cond.(*ssa.BinOp); ok && core.IsNilConst(cmp.Y) {
+									if f2 := core.LoadedField(cmp.X); f2 != nil && core.FieldVar(f2) == fv {
+										if cmp.Op == token.NEQ {
+											cutE[core.Edge{From: b, To: b.Succs[0]}] = true
+										} else if cmp.Op == token.EQL {
+											cutE[core.Edge{From: b, To: b.Succs[1]}] = true
+										}
+									}
+								}
+							}
+							if !has {
+								return false
+							}
+							skip, _ := core.PathQuery{Fn: e, Avoid: isSt, CutEdges: cutE, ExitReturnOnly: true}.Exists()
+							return !skip
+						}
+						sites, completed := 0, true
+						for _, g := range p.FuncsIn(func(pp string) bool { return pp == core.FnPkgPath(fn) }) {
+							for _, host := range core.WithClosures(g) {
+								core.EachCall(host, func(ci ssa.CallInstruction) {
+									if ci.Common().StaticCallee() != fn {
+										return
+									}
+									sites++
+									ev := func(x ssa.Instruction) bool {
+										if st, ok := x.(*ssa.Store); ok && !core.IsNilConst(st.Val) {
+											if fa, ok := st.Addr.(*ssa.FieldAddr); ok && core.FieldVar(fa) == fv {
+												return true
+											}
+										}
+										if cl, ok := x.(*ssa.Call); ok && ensures(cl.Call.StaticCallee()) {
+											return true
+										}
+										return false
+									}
+									if escape, _ := (core.PathQuery{Fn: host, From: ci, Avoid: ev, ExitReturnOnly: true}).Exists(); escape {
+										completed = false
+									}
+								})
+							}
+						}
+						if sites > 0 && completed {
+							continue
+						}
+					}
 					if elsewhere != nil {
 						seen[fv] = true
 						out = append(out, nilableField{named, fv, fmt.Sprintf("published at %s with %s unset; it is assigned only later, by %s at %s", p.Pos(publish.Pos()), fv.Name(), core.FuncName(elsewhere.Parent()), p.Pos(elsewhere.Pos()))})
